@@ -346,7 +346,7 @@ fn out_view_cases(tier: Tier) -> impl Iterator<Item = VCase> {
     let mut v = vec![];
     for len in 0..=max_len {
         for w in 1..=len + 2 {
-            for drv in 0..6 {
+            for drv in 0..8 {
                 for step in [1isize, 2, 3, -1, -2] {
                     v.push(VCase { len, w, drv, step, deque_rot: (len + w + drv) % 5 });
                 }
@@ -372,7 +372,7 @@ fn check_out_view(c: &VCase, obs: &mut Obs) -> CheckResult {
         calls.set(k + 1);
         k
     };
-    let name = ["rolling_apply", "rolling_apply_idx", "rolling2_apply", "rolling2_apply_idx", "rolling_custom", "rolling_apply(vecdeque)"][c.drv];
+    let name = ["rolling_apply", "rolling_apply_idx", "rolling2_apply", "rolling2_apply_idx", "rolling_custom", "rolling_apply(vecdeque)", "rolling2_custom", "rolling_custom(vecdeque)"][c.drv];
     {
         let view = parent.slice_mut(s![pad..pad + plen;c.step]);
         let r: Option<Array1<i32>> = match c.drv {
@@ -381,7 +381,10 @@ fn check_out_view(c: &VCase, obs: &mut Obs) -> CheckResult {
             2 => x.rolling2_apply::<Array1<i32>, i32, _, _, _>(&y, w, |_, _| tok(), Some(view)),
             3 => dq.rolling2_apply_idx::<Array1<i32>, i32, _, _, _>(&y, w, |_, _, _| tok(), Some(view)),
             4 => x.rolling_custom::<Array1<i32>, i32, _>(w, |_| tok(), Some(view)),
-            _ => dq.rolling_apply::<Array1<i32>, i32, _>(w, |_, _| tok(), Some(view)),
+            5 => dq.rolling_apply::<Array1<i32>, i32, _>(w, |_, _| tok(), Some(view)),
+            // the drivers that fill the buffer through the iterator writer rather than by index
+            6 => x.rolling2_custom::<Array1<i32>, i32, _, _, _>(&y, w, |_: &[i32], _: &[i32]| tok(), Some(view)),
+            _ => dq.rolling_custom::<Array1<i32>, i32, _>(w, |_| tok(), Some(view)),
         };
         if r.is_some() {
             return fail(format!("out_view:{}:out-path", name), "a value was returned although a buffer was supplied");
@@ -582,7 +585,7 @@ fn main() {
     let mut p = Property::new(
         "C02",
         "cases = (series length, window 1..=len+3, driver entry point {rolling_apply, rolling_apply_idx, rolling2_apply, rolling2_apply_idx, their *_to forms, rolling_custom, rolling_custom_to, rolling2_custom, rolling_custom_iter}, input backend {Vec, array, VecDeque rotations, ndarray owned / strided / reversed / mutable views, Arc-wrapped}, output container {Vec, VecDeque, Array1}, returned / caller-buffer path); data are distinct tokens; a recording, stateful callback returns its call number. Model: exactly len calls in position order; new element(s) x[i] (y[i]); removed element / start index Some(i-w+1) when i >= w-1 and None when i < min(w,len)-1 (the final position with w > len is unspecified for the removed argument); slice forms receive exactly x[max(0,i-w+1)..=i] of each series; output has length len and position i holds the token of call i. \
-         EXHAUSTIVE for len 0..=9 (thorough 0..=12) x every window x every driver x every backend kind x output container x path (sub 'small_scope'); random for len up to 120 / 300; sub 'out_view_placement' (enumerated, len 0..=8 / 14) writes through strided / reversed ndarray out views inside a padded sentinel buffer. Non-trivial = len >= 2 and 2 <= w <= len (a removal is reported); distinct = distinct cells",
+         EXHAUSTIVE for len 0..=9 (thorough 0..=12) x every window x every driver x every backend kind x output container x path (sub 'small_scope'); random for len up to 120 / 300; sub 'out_view_placement' (enumerated, len 0..=8 / 14) writes through strided / reversed ndarray out views inside a padded sentinel buffer, with the index-writing drivers and the two that fill the buffer through the iterator writer (rolling2_custom, rolling_custom on a VecDeque input). Non-trivial = len >= 2 and 2 <= w <= len (a removal is reported); distinct = distinct cells",
     )
     .assume("Polars inputs are exercised in the Polars binary of C07; Polars output through uset is documented as unsupported (DESIGN 5.7)");
     // (canary: the slice forms read through `uslice` of the real containers)
